@@ -454,6 +454,8 @@ class Walker:
         return [(st, None)]
 
     def s_Assert(self, s, st, d):
+        if getattr(self, 'strip_asserts', False):
+            return [(st, None)]          # the reading of python -O: the statement does not exist
         t = self.ev(s.test, st, d)
         known = self.truth(t, st)
         out = []
